@@ -124,6 +124,29 @@ func init() {
 			}
 		}
 	})
+	register("sys.lcdtrace", func(a []string) {
+		var sb strings.Builder
+		sb.WriteString("L")
+		last := [3]int{-1, -1, -1}
+		cnt := 0
+		flush := func() {
+			if cnt > 0 {
+				sb.WriteString(sprintf(" %d,%d,%d*%d", last[0], last[1], last[2], cnt))
+			}
+		}
+		for i := 0; i < ai(a, 1); i++ {
+			sm.hwCycle()
+			cur := [3]int{int(sm.mapper.Read(0xff44)), int(sm.mapper.Read(0xff41) & 3), int(sm.mapper.Read(0xff0f) & 3)}
+			if cur == last {
+				cnt++
+			} else {
+				flush()
+				last, cnt = cur, 1
+			}
+		}
+		flush()
+		emit("%s", sb.String())
+	})
 	register("sys.step", func(a []string) {
 		n := 0
 		sm.fullCycle()
